@@ -116,6 +116,21 @@ def _bounded_worker(task):
           "samples": samples, "distinct": len(distinct)}
 
 
+def semantics_selfcheck(report):
+  """Runs selftest/pysym_semantics.py (pysym's model of Python's reference semantics: each case's
+  true contract must be proved and its value-semantics counterpart refuted) in a subprocess; a
+  failure is a checker error - proofs that rest on that model must not be reported then."""
+  import subprocess
+  p = subprocess.run([sys.executable, os.path.join(common.VERIF, "selftest", "pysym_semantics.py")],
+                     capture_output=True, text=True)
+  ok = p.returncode == 0 and "self-test: OK" in p.stdout
+  report.coverage["pysym_semantics_selftest"] = "OK (%d expectations)" % p.stdout.count("\n") if ok \
+      else "FAILED"
+  if not ok:
+    report.crash("pysym semantics self-test failed: %s" % (p.stdout + p.stderr)[-600:])
+  return ok
+
+
 _BASELINE = []
 def _baseline():
   """proved_baseline.json (committed; written by tools/gen_proved_baseline.py, never at check
